@@ -34,7 +34,7 @@ from zcsim.world import SimWorld
 ID = "C05"
 LEVEL = "exploration"
 HAS_CLOCK = False
-BUDGET = {"quick": (6000, 240), "thorough": (400000, 1200)}
+BUDGET = {"quick": (20000, 240), "thorough": (400000, 1200)}
 RULE = (
     "A case is one load of a rendered history (tree of define/use/section/"
     "include steps over 3 names in mixed case, 15 value shapes incl. $other, "
